@@ -18,6 +18,7 @@ import Driver.Schema
 import Driver.FsWrite
 import Driver.Codec
 import Driver.Cli
+import Driver.Watch
 open Lean
 
 def dispatch (j : Json) : Except String Json := do
@@ -36,6 +37,7 @@ def dispatch (j : Json) : Except String Json := do
   | "fswrite" => Driver.FsWrite.handle j
   | "codec" => Driver.Codec.handle j
   | "cli" => Driver.Cli.handle j
+  | "watch" => Driver.Watch.handle j
   | _ => throw s!"unknown stream {stream}"
 
 partial def loop (hin hout : IO.FS.Stream) : IO Unit := do
